@@ -34,10 +34,10 @@ CLAIMED = {
  'C08': dict(text=T("accumulative presence = first accepted add .. largest accepted instant, flattened, ids = accepted instants, stream = one '+' per pair and no '-' (C08_presence, C08_flat, C08_ids, C08_stream), query layer via C02's theorems (C08_queries).",
                      "query-layer findings shared with C02 (self-loop arithmetic, digraph interactions())."), design="DESIGN.md 5 C08"),
  'C09': dict(text=T("rows = one per interaction and present instant, no duplicates (C09_rows); reading the written rows back gives the same class and presence (C09_roundtrip); four-column rows (C09_four_columns); text level: render/parse of a row and of decimals are inverse (C09_text, C09_decimal).",
-                     None, "open_file dispatch, gzip/bz2, file objects, byte encodings, string node ids."), design="DESIGN.md 5 C09"),
+                     None, "open_file dispatch, gzip/bz2, file objects, byte encodings, string node ids; multi-megabyte files (450 000 rows and more) are checked on the implementation side only (row counts / read-back timelines), the list-based model cannot run them."), design="DESIGN.md 5 C09"),
  'C10': dict(text=T("rows = the stream in chronological order (C10_write), reader semantics of '+' and '-' (C10_read_plus, C10_read_minus, C10_minus_presence); reading back what was written never fails and yields THE SAME STREAM, event for event, for every reachable graph (C10_stream_roundtrip_all, C10_roundtrip_log, C10_reachable); it preserves class and presence for every reachable graph whose runs of >= 2 instants are closed (C10_roundtrip_partial, C10_stream_roundtrip).",
                      "round trip refuted for the unclosed two-instant run (C10_roundtrip_refuted, K-C10-1).",
-                     "gzip/bz2/encodings/file objects; reader = replay for arbitrary well-formed logs that no graph produced is proved per pair (C10_reader_per_pair) and checked globally by the oracle."), design="DESIGN.md 5 C10"),
+                     "gzip/bz2/encodings/file objects; multi-megabyte interaction lists (320 000 events and more: implementation side only); reader = replay for arbitrary well-formed logs that no graph produced is proved per pair (C10_reader_per_pair) and checked globally by the oracle."), design="DESIGN.md 5 C10"),
  'C11': dict(text=T("content of node_link_data (C11_data, C11_links), node_link_graph(node_link_data g) has the same class, nodes, attributes and presence (C11_roundtrip), the directed argument is used only when the data does not say (C11_class).",
                      None, "json.dumps/loads, custom attrs['id']."), design="DESIGN.md 5 C11"),
  'C12': dict(text=T("every returned path is non-empty, leaves u, chains, has strictly increasing times inside the window, every hop present, ends in v (C12_sound), no immediate reversal (C12_no_pingpong), every intermediate node has an interaction at each window id between arrival and departure (C12_valid, C12_edges_alive), no duplicates (C12_nodup), improper window (C12_window_error).",
